@@ -1141,7 +1141,9 @@ pub fn neighbors(out: &mut dyn Write, base: &Case, seed: u64, count: usize) -> s
 pub fn run(out: &mut dyn Write, prop: &str, seed: u64, thorough: bool) -> std::io::Result<()> {
     let mut rng = Rng::new(seed ^ prop.bytes().fold(0u64, |a, b| a.wrapping_mul(131).wrapping_add(b as u64)));
     writeln!(out, "Q\t{}\tok", crate::l0::consts_line())?;
-    let n = |q: usize, t: usize| if thorough { t } else { q };
+    // ORXH_SCALE shrinks every group (used for the repeated runs under restricted CPU sets)
+    let scale: f64 = std::env::var("ORXH_SCALE").ok().and_then(|s| s.parse().ok()).unwrap_or(1.0);
+    let n = |q: usize, t: usize| ((((if thorough { t } else { q }) as f64) * scale) as usize).max(1);
     let collects = |rng: &mut Rng| -> Vec<TermD> {
         let mut v = vec![TermD::CollectVec, TermD::Collect];
         for k in ['v', 's', 'f'] {
@@ -1689,7 +1691,7 @@ pub fn run(out: &mut dyn Write, prop: &str, seed: u64, thorough: bool) -> std::i
         }
     }
     // ---- every interleaving of tiny configurations (scheduler granularity)
-    for (group, c, limit) in exhaust_configs(prop, &mut rng, thorough) {
+    for (group, c, limit) in if scale < 1.0 { vec![] } else { exhaust_configs(prop, &mut rng, thorough) } {
         writeln!(out, "BEGIN\t{}", c.enc())?;
         out.flush()?;
         let (k, _) = exhaust(out, &group, &c, limit)?;
